@@ -31,6 +31,9 @@ class SynPolicy(Policy):
         return None
 
     def ident_str(self, I, st, name):
+        m = re.match(r"^pq\((.*)\)\.Ok\.0\.segments\[(\d+)\]\.ident$", name)
+        if m:
+            return [x for x in m.group(1).split("::") if x][int(m.group(2))]      # parse_quote!(a::b): the path it spells
         return z3.String(name + ".sym")
 
     def display(self, I, st, ptr, t, kind):
@@ -277,9 +280,7 @@ def m_parser_parse2(I, st, inst, args):
             base = name + ".Ok.0"
             pre = {name + "#d": 0, base + ".leading_colon#d": 1 if text.startswith("::") else 0, base + ".segments#len": len(segs)}
             for i, sg in enumerate(segs):
-                pre["%s.segments[%d].arguments#d" % (base, i)] = 0
-                from .lazy import constrain_once
-                constrain_once(st, "%s.segments[%d].ident.sym" % (base, i), z3.String("%s.segments[%d].ident.sym" % (base, i)) == z3.StringVal(sg))
+                pre["%s.segments[%d].arguments#d" % (base, i)] = 0      # the identifiers are concrete: SynPolicy.ident_str reads them off the name
             for k, v in pre.items():
                 st.decisions.setdefault(k, v)
                 I.domains.setdefault(k, [v])
